@@ -2,9 +2,68 @@ import ZkModel.Keygen
 import ZkProofs.Lemmas.BytesLemmas
 /-!
 # C14 — seeded identity generation (`rln/src/protocol.rs::seeded_keygen`, `extended_seeded_keygen`)
+
+Properties of the model `ZkModel/Keygen.lean` (Keccak-256 → ChaCha20 → `Fr::rand` → Poseidon):
+canonicity of every drawn element, the commitment relations of both identity shapes, the shared
+first draw, the 32-byte encoding, the Montgomery constant, and the two reference vectors of
+`rln/tests/protocol.rs` (evaluated by the kernel, Keccak stage included).
 -/
 namespace Zk
 open Zk.Keygen
+
+/-! ### Reference vectors (`rln/tests/protocol.rs`), evaluated by the kernel stage by stage -/
+
+/-- Keccak-256 digest of the byte seed `[0..9]` -/
+def refDigestBytes : List UInt8 :=
+  [240, 174, 134, 166, 37, 126, 97, 91, 206, 139, 15, 231, 55, 148, 147, 77, 237, 160, 12, 19, 213, 143, 128, 180,
+    102, 169, 53, 78, 48, 108, 158, 176]
+
+/-- Keccak-256 digest of the UTF-8 bytes of `"A seed phrase example"` -/
+def refDigestPhrase : List UInt8 :=
+  [124, 2, 231, 112, 74, 134, 96, 61, 110, 108, 195, 169, 12, 66, 241, 217, 185, 217, 64, 32, 145, 242, 184, 29,
+    150, 150, 68, 50, 246, 126, 202, 74]
+
+/-- Keccak stage, byte seed -/
+theorem C14_reference_digest_bytes : Keccak.keccak256 [0,1,2,3,4,5,6,7,8,9] = refDigestBytes := by
+  decide +kernel
+
+/-- Keccak stage, phrase seed -/
+theorem C14_reference_digest_phrase :
+    Keccak.keccak256 "A seed phrase example".toUTF8.toList = refDigestPhrase := by
+  decide +kernel
+
+/-- ChaCha20 / `Fr::rand` stage on the first digest: first draw, with the stream position -/
+theorem C14_reference_seed_bytes_from_digest :
+    frRand (ChaCha.keyOfSeed refDigestBytes) FUEL 0 =
+      some (0x766ce6c7e7a01bdf5b3f257616f603918c30946fa23480f2859c597817e6716, 4) := by
+  decide +kernel
+
+/-- second draw of the same stream (the nullifier of the extended identity); one candidate is
+    rejected on the way, so the stream position advances by 8 -/
+theorem C14_reference_second_draw_from_digest :
+    frRand (ChaCha.keyOfSeed refDigestBytes) FUEL 4 =
+      some (0x1f18714c7bc83b5bca9e89d404cf6f2f585bc4c0f7ed8b53742b7e2b298f50b4, 12) := by
+  decide +kernel
+
+theorem C14_reference_seed_phrase_from_digest :
+    frRand (ChaCha.keyOfSeed refDigestPhrase) FUEL 0 =
+      some (0x20df38f3f00496f19fe7c6535492543b21798ed7cb91aebe4af8012db884eda3, 4) := by
+  decide +kernel
+
+/-- the two documented reference seeds (rln/tests/protocol.rs) give the documented secrets -/
+theorem C14_reference_seed_bytes :
+    (frRand (ChaCha.keyOfSeed (Keccak.keccak256 [0,1,2,3,4,5,6,7,8,9])) FUEL 0).map (·.1) =
+      some 0x766ce6c7e7a01bdf5b3f257616f603918c30946fa23480f2859c597817e6716 := by
+  rw [C14_reference_digest_bytes, C14_reference_seed_bytes_from_digest]
+  rfl
+
+theorem C14_reference_seed_phrase :
+    (frRand (ChaCha.keyOfSeed (Keccak.keccak256 "A seed phrase example".toUTF8.toList)) FUEL 0).map (·.1) =
+      some 0x20df38f3f00496f19fe7c6535492543b21798ed7cb91aebe4af8012db884eda3 := by
+  rw [C14_reference_digest_phrase, C14_reference_seed_phrase_from_digest]
+  rfl
+
+/-! ### `Fr::rand` -/
 
 /-- every value produced by `Fr::rand` is a canonical field element, and the stream index advances -/
 theorem C14_frRand_canonical (key : Array UInt32) (fuel k v k' : Nat) :
@@ -18,57 +77,194 @@ theorem C14_frRand_canonical (key : Array UInt32) (fuel k v k' : Nat) :
     · simp only [Option.some.injEq, Prod.mk.injEq] at h
       obtain ⟨hv, hk⟩ := h
       subst hv; subst hk
+      clear ih
+      rename_i hlt
+      clear hlt
       exact ⟨Nat.mod_lt _ P_pos, by omega, by omega⟩
-    · have := ih (k + 4) h
-      omega
+    · obtain ⟨h1, h2, h3⟩ := ih (k + 4) h
+      rename_i hlt
+      clear hlt ih h
+      exact ⟨h1, by omega, by omega⟩
+
+/-- non-vacuity: the hypothesis holds for the reference stream, without and with a rejection -/
+example : 0x766ce6c7e7a01bdf5b3f257616f603918c30946fa23480f2859c597817e6716 < P ∧ 0 < 4 ∧ (4 - 0) % 4 = 0 :=
+  C14_frRand_canonical _ _ _ _ _ C14_reference_seed_bytes_from_digest
+example : 0x1f18714c7bc83b5bca9e89d404cf6f2f585bc4c0f7ed8b53742b7e2b298f50b4 < P ∧ 4 < 12 ∧ (12 - 4) % 4 = 0 :=
+  C14_frRand_canonical _ _ _ _ _ C14_reference_second_draw_from_digest
+
+/-! ### Kernel-friendly unfolding of the two key generators
+
+`seededKeygen` matches on `frRand key FUEL 0` where `key` is a concrete array of symbolic words; any
+definitional unfolding against a `match` makes the kernel evaluate ChaCha symbolically (matchers are
+abbreviations, so they are unfolded before `seededKeygen` is).  The copies below abstract the
+sampler; they have the same body and the same definitional height as the model definitions, so
+`seededKeygen H seed = seededGen frRand H seed` is checked by unfolding both sides once and comparing
+syntactically.  All case analysis is then done for an abstract sampler. -/
+
+private abbrev Sampler := Array UInt32 → Nat → Nat → Option (Nat × Nat)
+
+private def seededGen (frR : Sampler) (H : List Nat → Nat) (seed : List UInt8) : Option (Nat × Nat) :=
+  (fun (_ : Sampler) =>
+    have key : Array UInt32 := ChaCha.keyOfSeed (Keccak.keccak256 seed)
+    seededKeygen.match_1 (fun _ => Option (Nat × Nat)) (frR key FUEL 0)
+      (fun s _ => some (s, H [s])) fun _ => none)
+  frRand
+
+private def extendedGen (frR : Sampler) (H : List Nat → Nat) (seed : List UInt8) :
+    Option (Nat × Nat × Nat × Nat) :=
+  (fun (_ : Sampler) =>
+    have key : Array UInt32 := ChaCha.keyOfSeed (Keccak.keccak256 seed)
+    extendedSeededKeygen.match_1 (fun _ => Option (Nat × Nat × Nat × Nat)) (frR key FUEL 0) (fun _ => none)
+      fun t k =>
+        extendedSeededKeygen.match_1 (fun _ => Option (Nat × Nat × Nat × Nat)) (frR key FUEL k) (fun _ => none)
+          fun n _ =>
+            have s : Nat := H [t, n]
+            some (t, n, s, H [s]))
+  frRand
+
+private theorem seededKeygen_eq_gen (H : List Nat → Nat) (seed : List UInt8) :
+    seededKeygen H seed = seededGen frRand H seed := rfl
+
+private theorem extendedSeededKeygen_eq_gen (H : List Nat → Nat) (seed : List UInt8) :
+    extendedSeededKeygen H seed = extendedGen frRand H seed := rfl
+
+private theorem seededGen_some (f : Sampler) (H : List Nat → Nat) (seed : List UInt8) (s c : Nat)
+    (h : seededGen f H seed = some (s, c)) :
+    ∃ k, f (ChaCha.keyOfSeed (Keccak.keccak256 seed)) FUEL 0 = some (s, k) ∧ c = H [s] := by
+  unfold seededGen at h
+  dsimp only at h
+  generalize f (ChaCha.keyOfSeed (Keccak.keccak256 seed)) FUEL 0 = r at h ⊢
+  cases r with
+  | none => cases h
+  | some p =>
+    obtain ⟨s0, k0⟩ := p
+    cases h
+    exact ⟨k0, rfl, rfl⟩
+
+private theorem seededGen_of (f : Sampler) (H : List Nat → Nat) (seed : List UInt8) (s k : Nat)
+    (hr : f (ChaCha.keyOfSeed (Keccak.keccak256 seed)) FUEL 0 = some (s, k)) :
+    seededGen f H seed = some (s, H [s]) := by
+  unfold seededGen
+  dsimp only
+  rw [hr]
+
+private theorem extendedGen_some (f : Sampler) (H : List Nat → Nat) (seed : List UInt8) (t n s c : Nat)
+    (h : extendedGen f H seed = some (t, n, s, c)) :
+    ∃ k k', f (ChaCha.keyOfSeed (Keccak.keccak256 seed)) FUEL 0 = some (t, k) ∧
+      f (ChaCha.keyOfSeed (Keccak.keccak256 seed)) FUEL k = some (n, k') ∧ s = H [t, n] ∧ c = H [s] := by
+  unfold extendedGen at h
+  dsimp only at h
+  generalize ChaCha.keyOfSeed (Keccak.keccak256 seed) = key at h ⊢
+  generalize hr : f key FUEL 0 = r at h
+  cases r with
+  | none => cases h
+  | some p =>
+    obtain ⟨t0, k0⟩ := p
+    dsimp only at h
+    generalize hr' : f key FUEL k0 = r' at h
+    cases r' with
+    | none => cases h
+    | some p' =>
+      obtain ⟨n0, k1⟩ := p'
+      cases h
+      exact ⟨k0, k1, rfl, hr', rfl, rfl⟩
+
+private theorem extendedGen_of (f : Sampler) (H : List Nat → Nat) (seed : List UInt8) (t k n k' : Nat)
+    (hr : f (ChaCha.keyOfSeed (Keccak.keccak256 seed)) FUEL 0 = some (t, k))
+    (hr' : f (ChaCha.keyOfSeed (Keccak.keccak256 seed)) FUEL k = some (n, k')) :
+    extendedGen f H seed = some (t, n, H [t, n], H [H [t, n]]) := by
+  unfold extendedGen
+  dsimp only
+  rw [hr]
+  dsimp only
+  rw [hr']
+
+/-! ### Identities -/
 
 /-- seeded identities satisfy the commitment relation on canonical elements -/
 theorem C14_seeded_identity_valid (H : List Nat → Nat) (seed : List UInt8) (s c : Nat) :
     seededKeygen H seed = some (s, c) → ValidIdentity H s c := by
   intro h
-  simp only [seededKeygen] at h
-  split at h
-  · rename_i s0 k0 hr
-    simp only [Option.some.injEq, Prod.mk.injEq] at h
-    obtain ⟨hs, hc⟩ := h
-    subst hs; subst hc
-    exact ⟨(C14_frRand_canonical _ _ _ _ _ hr).1, rfl⟩
-  · simp at h
+  obtain ⟨k, hr, hc⟩ := seededGen_some frRand H seed s c ((seededKeygen_eq_gen H seed).symm.trans h)
+  exact ⟨(C14_frRand_canonical _ _ _ _ _ hr).1, hc⟩
+
+/-- the reference seed does produce an identity, for every hash -/
+private theorem seeded_ref (H : List Nat → Nat) :
+    seededKeygen H [0,1,2,3,4,5,6,7,8,9] =
+      some (0x766ce6c7e7a01bdf5b3f257616f603918c30946fa23480f2859c597817e6716,
+            H [0x766ce6c7e7a01bdf5b3f257616f603918c30946fa23480f2859c597817e6716]) := by
+  rw [seededKeygen_eq_gen]
+  refine seededGen_of frRand H _ _ 4 ?_
+  rw [C14_reference_digest_bytes]
+  exact C14_reference_seed_bytes_from_digest
+
+/-- non-vacuity: the hypothesis is satisfiable (reference seed, arbitrary hash) -/
+example (H : List Nat → Nat) :
+    ValidIdentity H 0x766ce6c7e7a01bdf5b3f257616f603918c30946fa23480f2859c597817e6716
+      (H [0x766ce6c7e7a01bdf5b3f257616f603918c30946fa23480f2859c597817e6716]) :=
+  C14_seeded_identity_valid H _ _ _ (seeded_ref H)
 
 theorem C14_extended_seeded_identity_valid (H : List Nat → Nat) (seed : List UInt8) (t n s c : Nat) :
     extendedSeededKeygen H seed = some (t, n, s, c) → ValidExtendedIdentity H t n s c := by
   intro h
-  simp only [extendedSeededKeygen] at h
-  split at h
-  · simp at h
-  · rename_i t0 k0 hr
-    split at h
-    · simp at h
-    · rename_i n0 k1 hr'
-      simp only [Option.some.injEq, Prod.mk.injEq] at h
-      obtain ⟨ht, hn, hs, hc⟩ := h
-      subst ht; subst hn; subst hs; subst hc
-      exact ⟨(C14_frRand_canonical _ _ _ _ _ hr).1, (C14_frRand_canonical _ _ _ _ _ hr').1, rfl, rfl⟩
+  obtain ⟨k, k', hr, hr', hs, hc⟩ :=
+    extendedGen_some frRand H seed t n s c ((extendedSeededKeygen_eq_gen H seed).symm.trans h)
+  exact ⟨(C14_frRand_canonical _ _ _ _ _ hr).1, (C14_frRand_canonical _ _ _ _ _ hr').1, hs, hc⟩
+
+private theorem extended_ref (H : List Nat → Nat) :
+    extendedSeededKeygen H [0,1,2,3,4,5,6,7,8,9] =
+      some (0x766ce6c7e7a01bdf5b3f257616f603918c30946fa23480f2859c597817e6716,
+            0x1f18714c7bc83b5bca9e89d404cf6f2f585bc4c0f7ed8b53742b7e2b298f50b4,
+            H [0x766ce6c7e7a01bdf5b3f257616f603918c30946fa23480f2859c597817e6716,
+               0x1f18714c7bc83b5bca9e89d404cf6f2f585bc4c0f7ed8b53742b7e2b298f50b4],
+            H [H [0x766ce6c7e7a01bdf5b3f257616f603918c30946fa23480f2859c597817e6716,
+                  0x1f18714c7bc83b5bca9e89d404cf6f2f585bc4c0f7ed8b53742b7e2b298f50b4]]) := by
+  rw [extendedSeededKeygen_eq_gen]
+  refine extendedGen_of frRand H _ _ 4 _ 12 ?_ ?_
+  · rw [C14_reference_digest_bytes]
+    exact C14_reference_seed_bytes_from_digest
+  · rw [C14_reference_digest_bytes]
+    exact C14_reference_second_draw_from_digest
+
+/-- non-vacuity: the reference seed gives an extended identity (trapdoor, nullifier as in
+    `rln/tests/protocol.rs`), for every hash -/
+example (H : List Nat → Nat) :
+    ValidExtendedIdentity H 0x766ce6c7e7a01bdf5b3f257616f603918c30946fa23480f2859c597817e6716
+      0x1f18714c7bc83b5bca9e89d404cf6f2f585bc4c0f7ed8b53742b7e2b298f50b4
+      (H [0x766ce6c7e7a01bdf5b3f257616f603918c30946fa23480f2859c597817e6716,
+          0x1f18714c7bc83b5bca9e89d404cf6f2f585bc4c0f7ed8b53742b7e2b298f50b4])
+      (H [H [0x766ce6c7e7a01bdf5b3f257616f603918c30946fa23480f2859c597817e6716,
+             0x1f18714c7bc83b5bca9e89d404cf6f2f585bc4c0f7ed8b53742b7e2b298f50b4]]) :=
+  C14_extended_seeded_identity_valid H _ _ _ _ _ (extended_ref H)
 
 /-- the extended identity's trapdoor is the plain seeded identity's secret (same stream prefix) -/
 theorem C14_extended_shares_first_draw (H : List Nat → Nat) (seed : List UInt8) (t n s c s' c' : Nat) :
     extendedSeededKeygen H seed = some (t, n, s, c) → seededKeygen H seed = some (s', c') → t = s' := by
   intro h h'
-  simp only [extendedSeededKeygen] at h
-  simp only [seededKeygen] at h'
-  split at h
-  · simp at h
-  · rename_i t0 k0 hr
-    rw [hr] at h'
-    simp only [Option.some.injEq, Prod.mk.injEq] at h'
-    split at h
-    · simp at h
-    · simp only [Option.some.injEq, Prod.mk.injEq] at h
-      omega
+  obtain ⟨k, k', hr, -, -, -⟩ :=
+    extendedGen_some frRand H seed t n s c ((extendedSeededKeygen_eq_gen H seed).symm.trans h)
+  obtain ⟨k2, hr2, -⟩ := seededGen_some frRand H seed s' c' ((seededKeygen_eq_gen H seed).symm.trans h')
+  have := hr.symm.trans hr2
+  simp only [Option.some.injEq, Prod.mk.injEq] at this
+  exact this.1
+
+/-- non-vacuity: both hypotheses hold together on the reference seed -/
+example (H : List Nat → Nat) :
+    (0x766ce6c7e7a01bdf5b3f257616f603918c30946fa23480f2859c597817e6716 : Nat) =
+      0x766ce6c7e7a01bdf5b3f257616f603918c30946fa23480f2859c597817e6716 :=
+  C14_extended_shares_first_draw H _ _ _ _ _ _ _ (extended_ref H) (seeded_ref H)
+
+/-! ### Encoding and the Montgomery constant -/
 
 /-- canonical components encode to 32 bytes that decode back (one encoding per identity) -/
 theorem C14_identity_encoding (v : Nat) (hv : v < P) : (natLE 32 v).length = 32 ∧ leNat (natLE 32 v) = v :=
   ⟨natLE_length 32 v, leNat_natLE 32 v (Nat.lt_trans hv P_lt)⟩
+
+/-- non-vacuity: the reference secret round-trips; a bound is needed (`2^256 + 1` does not) -/
+example : leNat (natLE 32 0x766ce6c7e7a01bdf5b3f257616f603918c30946fa23480f2859c597817e6716) =
+    0x766ce6c7e7a01bdf5b3f257616f603918c30946fa23480f2859c597817e6716 :=
+  (C14_identity_encoding _ (C14_frRand_canonical _ _ _ _ _ C14_reference_seed_bytes_from_digest).1).2
+example : leNat (natLE 32 (2 ^ 256 + 1)) ≠ 2 ^ 256 + 1 := by decide +kernel
 
 /-- Montgomery radix inverse is what it claims to be -/
 theorem C14_rInv_spec : (2 ^ 256 % P) * rInv % P = 1 := by decide +kernel
